@@ -341,10 +341,29 @@ func RunCase(cs hx.Sx) hx.Sx {
 		case <-time.After(10 * time.Second):
 			log.add(0, LStuck, 2, 0, 0, 0)
 		}
-		// quiescence: every added event committed (by either batcher)
-		deadline := time.Now().Add(time.Duration(3000+3*cfg.FlushMs) * time.Millisecond)
-		for log.commits.Load() < int64(totalAdds) && time.Now().Before(deadline) {
+		// quiescence: every added event committed (by either batcher). Progress based: the run is
+		// wedged only if no label other than heartbeat ticks appears for a whole idle window.
+		idleWindow := time.Duration(3000+6*cfg.FlushMs) * time.Millisecond
+		hardCap := time.Now().Add(60 * time.Second)
+		progress := func() int {
+			log.mu.Lock()
+			defer log.mu.Unlock()
+			n := 0
+			for _, l := range log.labels {
+				if l.kind != pipeline.VtBatchTick && l.kind != pipeline.VtBatchNotReady && l.kind != pipeline.VtBatchFree {
+					n++
+				}
+			}
+			return n
+		}
+		lastN, lastChange := progress(), time.Now()
+		for log.commits.Load() < int64(totalAdds) && time.Now().Before(hardCap) {
 			time.Sleep(2 * time.Millisecond)
+			if n := progress(); n != lastN {
+				lastN, lastChange = n, time.Now()
+			} else if time.Since(lastChange) > idleWindow {
+				break
+			}
 		}
 		if log.commits.Load() < int64(totalAdds) {
 			log.add(0, LStuck, 3, log.commits.Load(), int64(totalAdds), 0)
